@@ -88,14 +88,18 @@ template <class T> int run(Cur& c)
     printf("gbs=%%zu ebs=%%ld", g, (long)T::encoded_byte_size);
     {
         uint8_t* out = (uint8_t*)malloc(g ? g : 1);          // exactly get_byte_size() bytes: ASan reports any overflow
+        memset(out, 0, g ? g : 1);
         size_t w = x->template encode<prophy::little>(out);
         printf(" le=%%zu", w);
+        printf(" lehex="); for (size_t i = 0; i < w && i < g; i++) printf("%%02x", out[i]);
         free(out);
     }
     {
         uint8_t* out = (uint8_t*)malloc(g ? g : 1);
+        memset(out, 0, g ? g : 1);
         size_t w = x->template encode<prophy::big>(out);
         printf(" be=%%zu", w);
+        printf(" behex="); for (size_t i = 0; i < w && i < g; i++) printf("%%02x", out[i]);
         free(out);
     }
     {
@@ -145,16 +149,69 @@ def confirm(chunk, shape, e, viol, _L, task_desc=None):
     rc, out, err = C.sh([exe, shape, j(d['lengths']), j(d['presence']), j(d['arms'])], timeout=120,
                         env={'ASAN_OPTIONS': 'detect_leaks=0:abort_on_error=0', 'UBSAN_OPTIONS': 'print_stacktrace=0'})
     txt = 'native: rc=%s %s %s' % (rc, out.strip()[:120], (err or '').strip().splitlines()[1:2])
-    m = re.search(r'gbs=(\d+) ebs=(-?\d+)(?: le=(\d+))?(?: be=(\d+))?(?: vec=(\d+))?', out)
+    m = re.search(r'gbs=(\d+) ebs=(-?\d+)', out)
     asan = 'AddressSanitizer' in (err or '')
     if asan:
         return True, txt
     if not m:
         return None, txt
     g, ebs = int(m.group(1)), int(m.group(2))
-    ws = [int(x) for x in m.groups()[2:] if x is not None]
+    ws = [int(x) for x in re.findall(r' (?:le|be|vec)=(\d+)', out)]
     bad = any(w != g for w in ws) or (ebs >= 0 and ebs != g)
+    if viol.get('cls') == 'compat':
+        # canonical-encoding comparison: the natively built object has default (zero / first enumerator) scalar values
+        fam = dict((s.name, s) for s in chunk['shapes'])
+        ref = default_reference(fam[shape], d)
+        hx = dict(re.findall(r' (lehex|behex)=([0-9a-f]*)', out))
+        bad = bad or hx.get('lehex') != ref['<'] or hx.get('behex') != ref['>']
+        txt += ' | canonical(le)=%s' % ref['<'][:64]
     return bad, txt
+
+
+def default_reference(shape, d):
+    """canonical encoding of the value the native replay builds: given structure, every scalar 0, enums first enumerator"""
+    src = _Zero(d['lengths'], d['presence'], d['arms'])
+    v = _zero_value(shape, src)
+    return {'<': ''.join('%02x' % b for b in W.encode(shape, v, '<')), '>': ''.join('%02x' % b for b in W.encode(shape, v, '>'))}
+
+
+class _Zero(object):
+    def __init__(self, lens, pres, arms):
+        self.lens, self.pres, self.arms = list(lens), list(pres), list(arms)
+
+
+def _zero_value(t, s):
+    t = W.strip(t)
+    if isinstance(t, W.Scalar):
+        return 0.0 if t.flt else 0
+    if isinstance(t, W.Enum):
+        return t.members[0][1]
+    if isinstance(t, W.Union):
+        a = t.arms[s.arms.pop(0)]
+        return (a[1], _zero_value(a[2], s))
+    out = {}
+    sizers = W.sizer_names(t)
+    ext = {}
+    for f in t.fields:
+        if f.name in sizers:
+            continue
+        form = f.form
+        et = W.SC['u8'] if f.bytes else f.type
+        if form == 'plain':
+            out[f.name] = _zero_value(et, s)
+        elif form == 'optional':
+            out[f.name] = _zero_value(et, s) if s.pres.pop(0) else None
+        else:
+            if form[0] == 'fixed':
+                n = form[1]
+            elif form[0] == 'ext':
+                if form[1] not in ext:
+                    ext[form[1]] = s.lens.pop(0)
+                n = ext[form[1]]
+            else:
+                n = s.lens.pop(0)
+            out[f.name] = [_zero_value(et, s) for _ in range(n)]
+    return out
 
 
 def run(tier):
